@@ -15,7 +15,8 @@ ID = "C20"
 LEVEL = "exploration"
 RULE = ("random rectangular grids (n_x, n_y in 2..14, a few with 1030..1400 cells; dx != dy in 1e-3..1, origin R0 0.2..10) built as voxel-vertex "
         "arrays (float64 / float32 / integer; vertices listed from any corner in either sense, one listing per grid or a different one per voxel) "
-        "+ index maps in the module's documented column-major / y-decreasing order, random polynomial fields; "
+        "+ index maps (1-D numbering down the columns as documented, or along the rows; y decreasing with iy), operator dicts handed to "
+        "calculate_admt in any key order, random polynomial fields; "
         "'deriv' cases drive the five derivative operators, 'admt' cases drive calculate_admt with linear / quadratic / "
         "cubic flux maps whose gradient is bounded away from zero and anisotropy 1..1e4; a case is non-trivial when at "
         "least one exactness comparison was evaluated on a cell (distinct = distinct grid+field descriptors)")
@@ -26,13 +27,13 @@ LEVEL_TEXT = ("Exploration by runtime reference-model monitoring: every generate
 LEVEL_NOTE = ("trusted: the analytic derivative formulas in this module; 'consistent discretisation for any smooth flux "
               "map' is restated as exactness on polynomial classes + the anisotropy-1 algebraic identity")
 TECHNIQUE = "runtime monitoring: reference-model oracle (exact polynomial derivatives, analytic ADMT) over generated grids"
-ASSUMPTIONS = ["voxels are equal rectangles ordered column-major with y decreasing (module docstring)",
+ASSUMPTIONS = ["voxels are equal rectangles; the index maps give (column, row) with the row index increasing as y decreases (module docstring); the 1-D numbering runs down the columns or along the rows",
                "flux maps have |grad psi| >= 0.2 max|grad psi| on the grid (quantifier: non-vanishing gradient)"]
 QUICK = dict(cases=400, workers=2, timecap=60)
 THOROUGH = dict(cases=40000, workers=16, timecap=600)
 REQUIRED = {"const": 1000, "linear": 1000, "bilinear": 500, "quadratic": 200, "admt_finite": 50, "admt_const": 50,
             "admt_iso": 50, "admt_analytic": 50, "admt_scale": 100, "sibling": 300,
-            "vertex_order_uniform": 25, "vertex_order_mixed": 15, "large_grid": 2}
+            "vertex_order_uniform": 25, "vertex_order_mixed": 15, "large_grid": 2, "row_numbering": 25, "opdict_reordered": 25}
 
 
 def gen_case(rng, tier):
@@ -61,6 +62,12 @@ def gen_case(rng, tier):
         case["vorder"] = dict(mode="uniform", start=int(rng.integers(4)), rev=bool(rng.random() < 0.5))
     elif r < 0.40:
         case["vorder"] = dict(mode="mixed", seed=int(rng.integers(2 ** 31)))
+    # the index maps describe the layout; the 1-D numbering itself may run down the columns (Ingesson) or along the rows
+    if rng.random() < 0.25:
+        case["numbering"] = "row"
+    # calculate_admt documents a dict of named operators: hand it over with the keys in another order half of the time
+    if rng.random() < 0.5:
+        case["opdict_order"] = [int(k) for k in rng.permutation(5)]
     # grids with more than 1024 cells (the operators are dense n x n arrays: keep them rare)
     if rng.random() < (0.02 if tier == "quick" else 0.01):
         case["nx"] = nx = int(rng.integers(26, 41))
@@ -102,6 +109,9 @@ def fixed_cases(tier):
             dict(base, kind="deriv", vorder=dict(mode="uniform", start=2, rev=True)),
             dict(base, kind="deriv", vorder=dict(mode="mixed", seed=7)),
             dict(base, kind="admt", nx=8, ny=9, psi_kind="quadratic", psi=qpsi, anisotropy=10, vorder=dict(mode="mixed", seed=11)),
+            dict(base, kind="deriv", numbering="row"), dict(base, kind="deriv", nx=2, ny=5, numbering="row"),
+            dict(base, kind="admt", nx=8, ny=9, psi_kind="quadratic", psi=qpsi, anisotropy=10, numbering="row", opdict_order=[4, 3, 2, 1, 0]),
+            dict(base, kind="admt", nx=8, ny=9, psi_kind="quadratic", psi=qpsi, anisotropy=1, opdict_order=[2, 3, 4, 0, 1]),
             dict(base, kind="deriv", nx=36, ny=30, large=True),
             dict(base, kind="admt", nx=36, ny=30, large=True, psi_kind="quadratic", psi=qpsi, anisotropy=10),
             dict(base, kind="admt", nx=33, ny=32, large=True, psi_kind="quadratic", psi=qpsi, anisotropy=1)]
@@ -127,8 +137,12 @@ def build_grid(case):
     verts, m12, m21 = [], {}, {}
     cx, cy, ixs, iys = [], [], [], []
     i = 0
-    for ix in range(nx):
-        for iy in range(ny):
+    if case.get("numbering") == "row":
+        order = [(ix, iy) for iy in range(ny) for ix in range(nx)]
+    else:
+        order = [(ix, iy) for ix in range(nx) for iy in range(ny)]
+    for ix, iy in order:
+        if True:
             h = R0 + (ix + 0.5) * dx
             k = Z0 + (ny - iy - 0.5) * dy     # y decreases with iy
             verts.append([(h + dx / 2, k + dy / 2), (h + dx / 2, k - dy / 2), (h - dx / 2, k - dy / 2), (h - dx / 2, k + dy / 2)])
@@ -219,11 +233,13 @@ def run_case(case, ctx):
         ctx.mon("vertex_order_" + vo["mode"])
     if case.get("large"):
         ctx.mon("large_grid")
+    if case.get("numbering") == "row":
+        ctx.mon("row_numbering")
     nx, ny, dx, dy = case["nx"], case["ny"], case["dx"], case["dy"]
     verts, m12, m21, x, y, ix, iy = build_grid(case)
     ops = generate_derivative_operators(verts, m12, m21)
     ctx.cls(case["kind"] + (":" + case["vertex_kind"] if case.get("vertex_kind") else "") + (":vorder-" + vo["mode"] if vo else "")
-            + (":>1024-cells" if case.get("large") else ""))
+            + (":>1024-cells" if case.get("large") else "") + (":row-numbering" if case.get("numbering") == "row" else ""))
     xc, yc = x.mean(), y.mean()
     Lx, Ly = nx * dx, ny * dy
     n = nx * ny
@@ -296,6 +312,9 @@ def run_case(case, ctx):
         ctx.skip("flux map gradient too close to zero on the grid")
         return
     ctx.nontrivial()
+    if case.get("opdict_order"):
+        ops = {names[k]: ops[names[k]] for k in case["opdict_order"]}
+        ctx.mon("opdict_reordered")
     L = calculate_admt(x, ops, PS["f"], dx, dy, anisotropy=an)
     ok = ctx.check(L.shape == (n, n) and bool(np.all(np.isfinite(L))), "admt:non-finite",
                    "calculate_admt returned a non-finite entry or wrong shape", monitor="admt_finite")
